@@ -55,8 +55,10 @@ FINGERPRINTS = {
     # extend / reduce are not fingerprinted either: harness/p_c14.generate regenerates the statement-level
     # translations C17 maintains (gen_nglob_batch.py, gen_nglob_code.py) and proofs/WatchTie.v proves C14's
     # model equal to them through C17's tie files.
-    # second shape: the ISDIR branch also queues the directory itself (proposed fix for C14-D10)
-    "stepup/core/watcher.py:AsyncInotifyWrapper.change_loop": ("1db8fefdf05cafae", "e1d6cde9fd574e23", "db0649bb364119ee"),  # first: with log-only statements dropped (astutil._DropLogging)
+    # first shape: rm_watch wrapped in contextlib.suppress(OSError) (fix of D54: the kernel may already have dropped
+    # the watch; the model treats the call as a no-op on the kernel side either way); second: the shape before it
+    # (with log-only statements dropped); later entries: older reviewed shapes
+    "stepup/core/watcher.py:AsyncInotifyWrapper.change_loop": ("bb21e8bfe43b5ff1", "1db8fefdf05cafae", "e1d6cde9fd574e23", "db0649bb364119ee"),  # first: with log-only statements dropped (astutil._DropLogging)
     # AsyncInotifyWrapper.dir_loop is not fingerprinted: translated statement by statement (_dir_loop_program)
     "stepup/core/workflow.py:Workflow.change_is_relevant": ("7296039b3c9fd378",),
     "stepup/core/workflow.py:Workflow.relevant_paths_under": ("5b3d4e5ed6bc08c7",),
